@@ -8,7 +8,7 @@
 From Coq Require Import List ZArith NArith Bool Reals.
 From Flocq Require Import Core IEEE754.BinarySingleNaN.
 From Coq Require Import Sorting.Sorted Sorting.Permutation.
-From Verif Require Import c11.Value c11.Natives c11.OrderGeneric c11.NumProofs c11.OrderProofs c11.SortProofs c11.NativesProofs.
+From Verif Require Import c11.Value c11.Natives c11.Spec c11.OrderGeneric c11.NumProofs c11.OrderProofs c11.SortProofs c11.NativesProofs c11.SpecProofs c11.SpecEquiv.
 Import ListNotations.
 Open Scope nat_scope.
 
@@ -16,6 +16,13 @@ Open Scope nat_scope.
 
 (* the number rows compute the order of the exact values, through float64(int)/bigToFloat rounding *)
 Definition C11_numbers_exact : Prop := forall a b, good_num a -> good_num b -> cmp_num a b = Rcompare (num_R a) (num_R b).
+
+(* null < false < true < numbers < strings < arrays < objects, whatever the contents *)
+Definition C11_type_ranking : Prop :=
+  (type_index VNull = 0%Z /\ type_index (VBool false) = 1%Z /\ type_index (VBool true) = 2%Z /\
+   (forall n, type_index (VNum n) = 3%Z) /\ (forall s, type_index (VStr s) = 4%Z) /\
+   (forall l, type_index (VArr l) = 5%Z) /\ (forall m, type_index (VObj m) = 6%Z)) /\
+  forall a b, (type_index a < type_index b)%Z -> compare a b = Lt.
 
 Definition C11_reflexive : Prop := forall a, good a -> compare a a = Eq.
 
@@ -122,10 +129,24 @@ Definition C11_array_sub_is_filter : Prop := forall l r,
 Definition C11_object_keys_sorted : Prop := forall m, wfb (VObj m) = true ->
   StronglySorted (fun a b => compare a b = Lt) (obj_keys m).
 
+(* indices / index / rindex on arrays: exactly the positions whose window is Compare-equal to the needle *)
+Definition C11_indices : Prop := forall vs xs j,
+  In j (indices compare vs xs) <-> xs <> [] /\ window_matches compare vs xs j.
+
+(* ---------- 3. the order as the property text words it ----------
+   Spec.v: numbers compared as exact rationals (integer arithmetic on m * 2^e), strings compared by
+   Unicode code point after strict UTF-8 decoding.  It is the order Compare computes. *)
+Definition C11_utf8_order_preserving : Prop := forall a b x y,
+  utf8_decode a = Some x -> utf8_decode b = Some y -> lex N.compare a b = lex N.compare x y.
+Definition C11_spec_numbers_exact : Prop := forall a b x y,
+  num_dyadic a = Some x -> num_dyadic b = Some y -> spec_num a b = Rcompare (num_R a) (num_R b).
+Definition C11_stated_order_is_compare : Prop := forall a b, good a -> good b -> spec_compare a b = compare a b.
+
 (* ---------- the theorems: every statement above, proved (one Print Assumptions per group, they are slow) ---------- *)
 
 (* Compare is a total preorder on the domain, and Compare-equality is equality of denotations *)
 Theorem C11_total_preorder_thm :
+  C11_type_ranking /\
   C11_numbers_exact /\
   C11_reflexive /\
   C11_opposite /\
@@ -136,7 +157,7 @@ Theorem C11_total_preorder_thm :
   C11_equal_left /\
   C11_equal_right /\
   C11_total.
-Proof. exact (conj cmp_num_exact (conj compare_refl (conj compare_opp (conj compare_eq_denote (conj le_antisym (conj le_trans (conj compare_trans (conj compare_eq_l (conj compare_eq_r le_total))))))))). Qed.
+Proof. exact (conj (conj type_index_table type_order) (conj cmp_num_exact (conj compare_refl (conj compare_opp (conj compare_eq_denote (conj le_antisym (conj le_trans (conj compare_trans (conj compare_eq_l (conj compare_eq_r le_total)))))))))). Qed.
 Print Assumptions C11_total_preorder_thm.
 
 (* the six operators are the projections of Compare *)
@@ -202,6 +223,20 @@ Theorem C11_object_keys_thm :
   C11_object_keys_sorted.
 Proof. exact object_keys_sorted. Qed.
 Print Assumptions C11_object_keys_thm.
+
+(* indices on arrays *)
+Theorem C11_indices_thm :
+  C11_indices.
+Proof. exact indices_compare. Qed.
+Print Assumptions C11_indices_thm.
+
+(* the stated order (exact rationals, code points) is the order Compare computes *)
+Theorem C11_stated_order_thm :
+  C11_utf8_order_preserving /\
+  C11_spec_numbers_exact /\
+  C11_stated_order_is_compare.
+Proof. exact (conj (fun a b x y => utf8_order_preserving (length a) a b x y (le_n _)) (conj spec_num_exact spec_compare_is_compare)). Qed.
+Print Assumptions C11_stated_order_thm.
 
 (* ---------- non-vacuity, and why the domain excludes NaN and floats >= 2^53 ---------- *)
 Definition ex_vals : list value :=
